@@ -7,9 +7,9 @@ import (
 
 type numType struct {
 	Go, Ctor, Tag, In string
-	Float           bool
-	Bits            int
-	Signed          bool
+	Float             bool
+	Bits              int
+	Signed            bool
 }
 
 var numTypes = []numType{
